@@ -105,6 +105,13 @@ def parents (n : Ptr) : List Ptr :=
   | none => []
   | some p => recurseBreak p
 
+/-- depth of a node: the number of `.Parent` steps from it to the top of the tree (the number of times the loop
+    of valuePath, interp.go:206 `for v.Parent != nil`, runs for it). Counted on the pointer, independent of
+    what `valuePathGo` collects. -/
+def depth : Ptr → Nat
+  | [] => 0
+  | _ :: up => depth up + 1
+
 /-- first child with that name (Compound.ByName; names are unique, AddChild is fatal on a duplicate) -/
 def lookupName (s : String) : List Tree → Option Nat
   | [] => none
